@@ -897,6 +897,18 @@ def _epsf(c):
     nd = c.hold('nddata', NDData(arr, uncertainty=StdDevUncertainty(c.clean('error')), mask=m))
     t = c.hold('catalogs', Table({'x': XPOS.copy(), 'y': YPOS.copy()}))
     stars = c.step('extract_stars', lambda: extract_stars(nd, t, size=(11, 13)))
+    # the documented 'weights' uncertainty type (no astropy class carries it: a StdDevUncertainty subclass does) together
+    # with a mask: the weights under the mask are zeroed -- in a copy, never in the caller's uncertainty array
+    mw = np.zeros(SHAPE, bool)
+    mw[14, 16] = True
+
+    class _Weights(StdDevUncertainty):
+        @property
+        def uncertainty_type(self):
+            return 'weights'
+
+    ndw = c.hold('nddata_weights', NDData(arr.copy(), uncertainty=_Weights(np.full(SHAPE, 2.0)), mask=mw))
+    c.step('extract_stars[weights]', lambda: extract_stars(ndw, t, size=9))
     cut = c.hold('star_data', c.clean(region=(slice(9, 20), slice(10, 21))) - 20.0)
     w = c.hold('star_weights', np.ones((11, 11)))
     star = c.step('EPSFStar', lambda: EPSFStar(cut, weights=w, cutout_center=(5.0, 5.0), origin=(10, 9)))
